@@ -41,6 +41,9 @@ def write_evidence(ctx, mod, lean, violations, wall):
         "known_findings_hit": list(ctx.known_hits.keys()),
         "forbidden_token_hits": lean["forbidden"],
     }
+    if lean.get("translator_note"):
+        cov["translator_fallback"] = ("the source-to-Lean translator could not follow the current source (" + lean["translator_note"][:300] +
+                                      "); the last good translation stayed in place and this run's tie rests on the correspondence streams alone")
     if ctx.exhaustive is not None:
         cov["exhaustive"] = bool(ctx.exhaustive)
     cov.update(ctx.extra)
@@ -67,12 +70,18 @@ def lean_stage(prop_id, tier, mod):
     cmd = f"cd lean && lake build {' '.join(targets)} && lake env lean <generated audit: #print axioms of every theorem in QuantemModel/Props/{prop_id}.lean>"
     pre = getattr(mod, "pregenerate", None)
     if pre is not None:
+        # A translator that cannot FOLLOW the current source (construct outside its grammar / tracer) leaves the last
+        # good Generated/*.lean in place.  That is not by itself a broken proof: the theorems still hold of the
+        # executable model, and that model is still compared with the current code by the correspondence streams of
+        # this run.  It is recorded as `translator_note`; the verdict (see main) treats it as a broken tie only when
+        # something else is wrong too (an obligation, a disagreement, a predicate failure) — a translation that
+        # SUCCEEDS and yields different formulas breaks the `generated = model` obligations as before.
         try:
             note = pre()
             if note:
-                out["failed"]["<translator>"] = note
+                out["translator_note"] = str(note)
         except Exception as e:  # translator cannot translate the current source any more
-            out["failed"]["<translator>"] = f"{type(e).__name__}: {e}"
+            out["translator_note"] = f"{type(e).__name__}: {e}"
     rc, log, dt = leanproj.build(targets, clean=(tier == "thorough"))
     out["build_s"] = round(dt, 1)
     if rc == 124:
@@ -179,6 +188,8 @@ def main(argv=None):
         t_run = time.time()
         mod.run(ctx)
         t_run = time.time() - t_run
+        if lean.get("translator_note") and (lean["failed"] or ctx.disagreements or ctx.pred_failures):
+            lean["failed"]["<translator>"] = lean["translator_note"]
         tie_broken = bool(lean["failed"]) or bool(ctx.disagreements)
         if tie_broken and not ctx.pred_failures and hasattr(mod, "run"):
             # a broken proof / correspondence is not by itself a violation: search the
@@ -214,6 +225,9 @@ def main(argv=None):
             "impl": f"{type(e).__name__}: {str(e)[:300]}",
             "note": "the implementation raised inside a harness stream that does not expect an exception there"})
 
+    if lean.get("translator_note") and "<translator>" not in lean["failed"]:
+        print(f"NOTE: translator fallback ({lean['translator_note'][:200]}): all obligations hold of the last good translation and the "
+              f"correspondence streams agree with the current code; the tie of this run rests on the correspondence alone")
     for key, text in ctx.known_hits.items():
         print(f"KNOWN-FINDING: property={pid} key={key} {text}")
 
